@@ -44,6 +44,9 @@ def run(ctx: Ctx):
     r15_5(ctx)
     c16.r16_1(ctx, rule="R15.6")
     c16.r16_2b(ctx, rule="R15.6")       # every line of a section is filed under that section (the bond graph reads them from there)
+    from ..util import persistent_state
+    persistent_state(ctx, "R15.7", [ctx.func(q) for q in ("ItpFile.__init__", "_itp_top_atoms", "_parse_itp_bonds", "MoleculeTop.__init__")],
+                     "reading a topology")
 
 
 def r15_1(ctx: Ctx):
